@@ -123,3 +123,30 @@ noncomputable def envOf (l : List ℝ) : Nat → ℝ := fun i => l.getD i 0
 def noSyms : Nat → ℝ := fun _ => 0
 
 end Atsim.E
+
+/-- closes the residual goal of a "generated term = documented formula" identity after unfolding: tries, in order, the goal being closed already,
+    numeral normalisation, commutative-ring normalisation (incl. inverses of products and powers), and clearing denominators.  The cascade makes
+    the identities insensitive to harmless algebraic rewrites of the Python expression (`r**6` vs `r**3 * r**3`, reordered sums, factored terms). -/
+macro "form_close" : tactic =>
+  `(tactic| first
+    | done
+    | (norm_num; done)
+    | (ring_nf; done)
+    | (norm_num; ring_nf; done)
+    | (field_simp; done)
+    | (field_simp; ring_nf; done)
+    | (norm_num; field_simp; ring_nf; done))
+
+/-- closes "symbolic derivative of the generated value term = generated derivative term" after unfolding.  `ring1` (not `ring`) so that a failed
+    alternative backtracks; `norm_num` first normalises the `n - 1` exponents and numeral casts that `D` introduces. -/
+macro "deriv_close" : tactic =>
+  `(tactic| first
+    | done
+    | (field_simp; ring1)
+    | (norm_num; done)
+    | (norm_num; field_simp; ring1)
+    | (norm_num; field_simp; ring_nf; done)
+    | (norm_num; ring_nf; done)
+    | (push_cast; ring1)
+    | (push_cast; field_simp; ring1))
+
